@@ -109,8 +109,8 @@ theorem edges_cond {onTrue : Bool} {c t : Expr F} {s : LState F}
   simp only [wfE, Bool.and_eq_true] at hwf
   obtain ⟨p1, z1⟩ := emit_pre root cur c s hc
   have j1 := p1.jsize
-  have k1 := (emit_dep root cur c s hwf.1.1).2
-  have al1 := hal.emit (root := root) hc hwf.1.1
+  have k1 := (emit_dep root cur c s hwf.1).2
+  have al1 := hal.emit (root := root) hc hwf.1
   simp only [emit] at hw
   have hn : noR c = true := by
     rcases htl with h | ⟨h, _⟩
@@ -120,14 +120,14 @@ theorem edges_cond {onTrue : Bool} {c t : Expr F} {s : LState F}
     ⟨(condTail_pre (by omega)).1, (condTail_dep k1).1.app⟩
   obtain ⟨e1, e2, d1⟩ := condTail_edges al1 k1 j1 hw hev had hroots
     (hnext_cast hnext (by simp only [len]; omega))
-  have rc := sub_edges (ihc s) hc hp hal (.refl s) (hw.pre p2) hev had hroots hwf.1.1 (.inl hn) hcur
+  have rc := sub_edges (ihc s) hc hp hal (.refl s) (hw.pre p2) hev had hroots hwf.1 (.inl hn) hcur
     (.inr (by rw [← z1]; exact d1))
   have htt : noR t = true ∨ (tailR t = true ∧ s.dep = 0) := by
     rcases htl with h | ⟨h, h0⟩
     · simp only [noR, Bool.and_eq_true] at h; exact .inl h.2
     · simp only [tailR, Bool.and_eq_true] at h; exact .inr ⟨h.2, h0⟩
   have tt := condTail_terms (hp.of_pre p1) k1 j1 hw hev (hnext_cast hnext (by simp only [len]; omega))
-    ⟨⟨hwf.1.2, hwf.2⟩, htt, hcur⟩
+    ⟨hwf.2, htt, hcur⟩
   refine ⟨fun pc h1 h2 => ?_, fun p hp' hnp => ?_⟩
   rotate_left
   · simp only [emit] at hp'
@@ -143,7 +143,7 @@ theorem edges_cond {onTrue : Bool} {c t : Expr F} {s : LState F}
 theorem edges_logicalE {instr : Instruction} {l r e : Expr F} {s : LState F} (hi : instr = .and ∨ instr = .or)
     (he : ∀ u, emit root cur e u = logicalTail cur instr r (emit root cur l u)) (hlen : len e = len l + 1)
     (hwe : wfE e = true → wfE l = true) (hne : (noR e = true ∨ (tailR e = true ∧ s.dep = 0)) → noR l = true)
-    (hwr : wfE e = true → wfE r = true ∧ enFree r = true)
+    (hwr : wfE e = true → wfE r = true)
     (hnr : (noR e = true ∨ (tailR e = true ∧ s.dep = 0)) → (noR r = true ∨ (tailR r = true ∧ s.dep = 0)))
     (ihl : ∀ u, EmitE sF root cur l u) : EmitE sF root cur e s := by
   intro sM hc hp hal hw hev had hroots hwf htl hcur hnext
@@ -267,10 +267,10 @@ theorem edges_chain {arms : List (Bool × Expr F × Expr F)} {fe : Expr F} {s : 
   have ok2 : ItemsOK s.jumps.size (emit root cur fe (emitArms root cur arms s).1).jumps.size (emitArms root cur arms s).2 :=
     fun it hit => ⟨(ok1 it hit).1, by have := (ok1 it hit).2; omega⟩
   have hitems : ∀ it ∈ (emitArms root cur arms s).2,
-      (wfE it.1 = true ∧ enFree it.1 = true) ∧ (noR it.1 = true ∨ (tailR it.1 = true ∧ s.dep = 0)) ∧ ContOK sF cur := by
+      wfE it.1 = true ∧ (noR it.1 = true ∨ (tailR it.1 = true ∧ s.dep = 0)) ∧ ContOK sF cur := by
     have hgen : ∀ (as : List (Bool × Expr F × Expr F)) (u : LState F), wfEArms as = true →
         (noRArms as = true ∨ (tailRArms as = true ∧ s.dep = 0)) →
-        ∀ it ∈ (emitArms root cur as u).2, (wfE it.1 = true ∧ enFree it.1 = true) ∧
+        ∀ it ∈ (emitArms root cur as u).2, wfE it.1 = true ∧
           (noR it.1 = true ∨ (tailR it.1 = true ∧ s.dep = 0)) := by
       intro as
       induction as with
@@ -281,7 +281,7 @@ theorem edges_chain {arms : List (Bool × Expr F × Expr F)} {fe : Expr F} {s : 
         simp only [wfEArms, Bool.and_eq_true] at hw0
         simp only [emitArms, List.mem_cons] at hit
         rcases hit with rfl | hit
-        · refine ⟨⟨hw0.1.1.2, hw0.1.2⟩, ?_⟩
+        · refine ⟨hw0.1.2, ?_⟩
           rcases ht0 with h | ⟨h, h0⟩
           · simp only [noRArms, Bool.and_eq_true] at h; exact .inl h.1.2
           · simp only [tailRArms, Bool.and_eq_true] at h; exact .inr ⟨h.1.2, h0⟩
